@@ -346,101 +346,156 @@ Theorem downgrade_refused : redirect_step true SRtsp = RDowngrade.
 Proof. reflexivity. Qed.
 
 (* starting on rtsps, every connection made while following ANY chain of redirects is rtsps *)
-Theorem no_scheme_downgrade : forall chain l e,
-  follow true chain = (l, e) -> Forall (fun b => b = true) l.
+Lemma no_scheme_downgrade_n : forall chain n l e,
+  follow_n n true chain = (l, e) -> Forall (fun b => b = true) l.
 Proof.
-  induction chain as [|t rest IH]; intros l e H.
+  induction chain as [|t rest IH]; intros n l e H.
   - cbn in H. injection H as <- _. repeat constructor.
-  - cbn [follow] in H. destruct t; cbn [redirect_step] in H.
+  - cbn [follow_n] in H. destruct (sec_max_redirects <=? n).
+    { injection H as <- _. repeat constructor. }
+    destruct t; cbn [redirect_step] in H.
     + injection H as <- _. repeat constructor.
-    + destruct (follow true rest) as [l' e'] eqn:E. injection H as <- _.
-      constructor; [reflexivity|]. apply (IH l' e'). reflexivity.
+    + destruct (follow_n (n + 1) true rest) as [l' e'] eqn:E. injection H as <- _.
+      constructor; [reflexivity|]. apply (IH (n + 1) l' e'). exact E.
     + injection H as <- _. repeat constructor.
 Qed.
 
+Theorem no_scheme_downgrade : forall chain l e,
+  follow true chain = (l, e) -> Forall (fun b => b = true) l.
+Proof. intros chain l e H. apply (no_scheme_downgrade_n chain 0 l e H). Qed.
+
 (* from any start: once a connection is rtsps, all later ones are *)
-Theorem no_scheme_downgrade_later : forall chain cur l e,
-  follow cur chain = (l, e) ->
+Lemma no_scheme_downgrade_later_n : forall chain n cur l e,
+  follow_n n cur chain = (l, e) ->
   forall l1 l2, l = l1 ++ true :: l2 -> Forall (fun b => b = true) l2.
 Proof.
-  induction chain as [|t rest IH]; intros cur l e H l1 l2 Hl.
+  induction chain as [|t rest IH]; intros n cur l e H l1 l2 Hl.
   - cbn in H. injection H as <- _. destruct l1 as [|x [|y l1]]; try discriminate.
     injection Hl as _ <-. constructor.
-  - cbn [follow] in H.
+  - cbn [follow_n] in H. destruct (sec_max_redirects <=? n).
+    { injection H as <- _. destruct l1 as [|x [|y l1]]; try discriminate.
+      injection Hl as _ <-. constructor. }
     destruct (redirect_step cur t) as [b| |] eqn:Es.
-    + destruct (follow b rest) as [l' e'] eqn:E. injection H as <- _.
+    + destruct (follow_n (n + 1) b rest) as [l' e'] eqn:E. injection H as <- _.
       destruct l1 as [|x l1].
       * cbn in Hl. injection Hl as -> <-.
-        (* cur = true: the next connection is rtsps as well *)
         assert (b = true).
         { destruct t; cbn in Es; try discriminate; injection Es as <-; reflexivity. }
-        subst b. apply (no_scheme_downgrade rest l' e'). exact E.
-      * cbn in Hl. injection Hl as _ Hl. apply (IH b l' e' E l1 l2 Hl).
+        subst b. apply (no_scheme_downgrade_n rest (n + 1) l' e'). exact E.
+      * cbn in Hl. injection Hl as _ Hl. apply (IH (n + 1) b l' e' E l1 l2 Hl).
     + injection H as <- _. destruct l1 as [|x [|y l1]]; try discriminate.
       injection Hl as _ <-. constructor.
     + injection H as <- _. destruct l1 as [|x [|y l1]]; try discriminate.
       injection Hl as _ <-. constructor.
 Qed.
+
+Theorem no_scheme_downgrade_later : forall chain cur l e,
+  follow cur chain = (l, e) ->
+  forall l1 l2, l = l1 ++ true :: l2 -> Forall (fun b => b = true) l2.
+Proof. intros chain cur l e H. apply (no_scheme_downgrade_later_n chain 0 cur l e H). Qed.
 
 (* a downgrade target ends the chain with the refusal class, without a further connection *)
 Theorem downgrade_ends_chain : forall rest, follow true (SRtsp :: rest) = ([true], 1).
 Proof. reflexivity. Qed.
 
+(* no chain makes the client connect more than clientMaxRedirects + 1 times *)
+Lemma follow_n_bounded : forall chain n l e,
+  follow_n n true chain = (l, e) \/ follow_n n false chain = (l, e) ->
+  n <= sec_max_redirects -> nlen l + n <= sec_max_redirects + 1.
+Proof.
+  assert (Hc : sec_max_redirects = 10) by reflexivity.
+  induction chain as [|t rest IH]; intros n l e H Hn.
+  - destruct H as [H|H]; cbn in H; injection H as <- _; cbn [nlen]; lia.
+  - assert (G : forall cur, follow_n n cur (t :: rest) = (l, e) -> nlen l + n <= sec_max_redirects + 1).
+    { intros cur H'. cbn [follow_n] in H'. destruct (sec_max_redirects <=? n) eqn:En.
+      { injection H' as <- _. cbn [nlen]. lia. }
+      destruct (redirect_step cur t) as [b| |].
+      - destruct (follow_n (n + 1) b rest) as [l' e'] eqn:E. injection H' as <- _.
+        assert (nlen l' + (n + 1) <= sec_max_redirects + 1).
+        { apply (IH (n + 1) l' e'); [destruct b; [left|right]; exact E|lia]. }
+        cbn [nlen]. lia.
+      - injection H' as <- _. cbn [nlen]. lia.
+      - injection H' as <- _. cbn [nlen]. lia. }
+    destruct H as [H|H]; eapply G; exact H.
+Qed.
+
+Theorem redirects_bounded : forall chain cur l e,
+  follow cur chain = (l, e) -> nlen l <= sec_max_redirects + 1.
+Proof.
+  intros chain cur l e H.
+  assert (nlen l + 0 <= sec_max_redirects + 1).
+  { apply (follow_n_bounded chain 0 l e); [destruct cur; [left|right]; exact H|lia]. }
+  lia.
+Qed.
+
 (* ------------------------------------------------------------------------------------------ *)
-(* the remote-SSRC latch                                                                        *)
+(* the remote-SSRC latch (code after fix e33be43)                                               *)
 (* ------------------------------------------------------------------------------------------ *)
 
-(* genuine packets of the format: header SSRC g, they decode *)
-Definition genuine (g : N) (p : N * bool) : Prop := p = (g, true).
 (* anything that does not decode (altered or forged) is never delivered, latched or not *)
 Theorem latch_never_delivers_undecodable : forall secure l ssrc,
   snd (filter_step secure l ssrc false) <> EDelivered.
 Proof.
   intros secure [f v] ssrc. unfold filter_step. cbn [l_filled l_value].
-  destruct f; cbn [negb snd]; [|discriminate].
-  destruct (secure && negb (v =? ssrc))%bool; cbn; discriminate.
+  destruct (f && secure && negb (v =? ssrc))%bool; cbn; discriminate.
 Qed.
 
-(* REFUTATION (finding ssrc-latch-unauthenticated): one undecodable packet with another SSRC that
-   arrives first makes the receiver refuse every genuine packet that follows *)
-Theorem latch_poisoned_refuted :
-  filter_run true (mkLatch false 0) [(2, false); (1, true); (1, true); (1, true)]
+(* ... and never changes the latch: only an authenticated packet can set the expected SSRC *)
+Theorem latch_unchanged_by_undecodable : forall secure l ssrc,
+  fst (filter_step secure l ssrc false) = l.
+Proof.
+  intros secure l ssrc. unfold filter_step.
+  destruct (l_filled l && secure && negb (l_value l =? ssrc))%bool; reflexivity.
+Qed.
+
+Definition latch_inv (g : N) (l : latch) : Prop := l_filled l = true -> l_value l = g.
+
+(* FULL statement: with an ideal cipher (what decodes is genuine, i.e. carries the sender's SSRC g)
+   exactly the genuine packets are delivered, for EVERY interleaving with altered / forged packets,
+   whatever arrives first, from every latch state consistent with g (in particular the empty one). *)
+Theorem latch_delivers_exactly_genuine : forall secure g pkts l,
+  latch_inv g l ->
+  Forall (fun p => snd p = true -> fst p = g) pkts ->
+  Forall2 (fun p e => e = EDelivered <-> snd p = true) pkts (filter_run secure l pkts).
+Proof.
+  intros secure g pkts. induction pkts as [|[s ok] t IH]; intros l Hinv Hall; [constructor|].
+  inversion Hall as [|? ? Hp Ht]; subst. cbn [fst snd] in Hp.
+  cbn [filter_run]. unfold filter_step.
+  destruct (l_filled l) eqn:Ef; cbn [andb].
+  - specialize (Hinv Ef).
+    destruct ok.
+    + rewrite Hinv, (Hp eq_refl), N.eqb_refl. cbn [negb]. rewrite andb_false_r.
+      constructor; [split; reflexivity|]. apply IH; [intros _; exact Hinv|exact Ht].
+    + destruct (secure && negb (l_value l =? s))%bool;
+        (constructor; [split; discriminate|]; apply IH; [intros _; exact Hinv|exact Ht]).
+  - destruct ok.
+    + constructor; [split; reflexivity|]. apply IH; [|exact Ht].
+      intros _. cbn. exact (Hp eq_refl).
+    + constructor; [split; discriminate|]. apply IH; [|exact Ht].
+      intros H. congruence.
+Qed.
+
+Lemma latch_inv_empty g : latch_inv g (mkLatch false 0).
+Proof. intros H. discriminate. Qed.
+
+(* the history that poisoned the old code is harmless now *)
+Example latch_regression_example :
+  filter_run true (mkLatch false 0) [(2, false); (1, true); (1, true); (2, false); (1, true)]
+  = [EDecodeError; EDelivered; EDelivered; EWrongSSRC; EDelivered].
+Proof. reflexivity. Qed.
+
+(* regression lemmas about the OLD code (before e33be43), for the record: one undecodable packet with
+   another SSRC arriving first made the receiver refuse every genuine packet, for good *)
+Lemma latch_old_poisoned :
+  filter_run_old true (mkLatch false 0) [(2, false); (1, true); (1, true); (1, true)]
   = [EDecodeError; EWrongSSRC; EWrongSSRC; EWrongSSRC].
 Proof. reflexivity. Qed.
 
-(* and for good: once another SSRC is latched in secure mode, no genuine packet gets through *)
-Theorem latch_poison_permanent : forall v g pkts,
-  v <> g -> Forall (genuine g) pkts ->
-  filter_run true (mkLatch true v) pkts = map (fun _ => EWrongSSRC) pkts.
+Lemma latch_old_poison_permanent : forall v g pkts,
+  v <> g -> Forall (fun p => p = (g, true)) pkts ->
+  filter_run_old true (mkLatch true v) pkts = map (fun _ => EWrongSSRC) pkts.
 Proof.
   intros v g pkts Hne Hall. induction Hall as [|p t Hp _ IH]; [reflexivity|].
-  rewrite Hp. cbn [filter_run map]. unfold filter_step. cbn [l_filled l_value negb andb].
+  rewrite Hp. cbn [filter_run_old map]. unfold filter_step_old. cbn [l_filled l_value negb andb].
   destruct (v =? g) eqn:E; [apply N.eqb_eq in E; congruence|]. cbn [negb]. rewrite IH. reflexivity.
-Qed.
-
-(* strongest true statement about the code as it is (_partial): if the FIRST packet that reaches the
-   format carries the sender's SSRC (genuine, or altered elsewhere), then every genuine packet is
-   delivered and everything undecodable is rejected, in any interleaving *)
-Definition latch_expected (secure : bool) (g : N) (p : N * bool) : revent :=
-  if snd p then EDelivered
-  else if secure && negb (g =? fst p) then EWrongSSRC else EDecodeError.
-
-Theorem latch_partial : forall secure g pkts,
-  Forall (fun p => snd p = true -> fst p = g) pkts ->   (* what decodes is genuine *)
-  filter_run secure (mkLatch true g) pkts = map (latch_expected secure g) pkts.
-Proof.
-  intros secure g pkts Hall. induction Hall as [|[s ok] t Hp _ IH]; [reflexivity|].
-  cbn [filter_run map]. unfold filter_step, latch_expected. cbn [l_filled l_value negb fst snd] in *.
-  destruct ok.
-  - rewrite (Hp eq_refl), N.eqb_refl. cbn [negb]. rewrite andb_false_r. rewrite IH. reflexivity.
-  - destruct (secure && negb (g =? s))%bool; rewrite IH; reflexivity.
-Qed.
-
-Theorem latch_first_genuine : forall secure g ok0 pkts,
-  Forall (fun p => snd p = true -> fst p = g) pkts ->
-  filter_run secure (mkLatch false 0) ((g, ok0) :: pkts)
-  = (if ok0 then EDelivered else EDecodeError) :: map (latch_expected secure g) pkts.
-Proof.
-  intros secure g ok0 pkts Hall. cbn [filter_run]. unfold filter_step. cbn [l_filled negb].
-  rewrite (latch_partial secure g pkts Hall). reflexivity.
 Qed.
